@@ -294,6 +294,24 @@ pub fn inproc(f: Fmt, shape: Shape, to: Fmt, thorough: bool, acc: &mut Acc) -> O
         if f == Fmt::Yaml && d <= 300 && shape != Shape::KeyPosition {
             inputs.push((nested_yaml_block(shape, d), "block"));
         }
+        // the same documents followed by a second, tiny document (a size or depth pre-pass that looks at
+        // "the rest of the input" sees more than the nested value there)
+        let tail: &[u8] = match f {
+            Fmt::Msgpack => b"\x01",
+            Fmt::Json => b"\n1",
+            Fmt::Yaml => b"\n---\n1\n",
+            Fmt::Toml => b"",
+        };
+        if !tail.is_empty() && d <= 100_000 {
+            for (k, style) in [(0usize, "flow_then_second_document"), (1, "flow_empty_core_then_second_document")] {
+                let mut b = inputs[k].0.clone();
+                if !b.is_empty() {
+                    b.extend_from_slice(tail);
+                    inputs.push((b, style));
+                    acc.count("documents_followed_by_a_second_document");
+                }
+            }
+        }
         if f == Fmt::Msgpack && shape != Shape::KeyPosition && d >= 1 && d <= 100_000 {
             for st in MSGPACK_STYLES {
                 if st == "wide_random" && d > 10_000 {
@@ -325,7 +343,7 @@ pub fn inproc(f: Fmt, shape: Shape, to: Fmt, thorough: bool, acc: &mut Acc) -> O
                 }
                 classes.push((fmts::from_name(from).to_string(), s));
             }
-            if style == "flow_empty_core" {
+            if style == "flow_empty_core" || style.ends_with("_then_second_document") {
                 // documents whose innermost collection is empty only take part in the
                 // slice/reader comparison (their limit may legitimately differ by one)
                 acc.count("empty_core_documents");
@@ -492,7 +510,7 @@ pub fn run(ctx: &Ctx) -> i32 {
         }
     }
     size_hook(&mut acc, ctx.seed, ctx.size(20000, 400000));
-    let rule = format!("{} (source format, nesting shape, target) combinations: shapes arrays / maps / alternating / 2 random mixtures (+ key-position nesting for MessagePack; MessagePack documents also spelled with 16/32-bit length headers and with 16-entry collections on the deepest path) x 4 targets; depths: a +-6 window around each format's limit (MessagePack 1024, JSON 128, YAML 128, TOML 80; YAML also in block style), 1000..1025, 10^4, 10^5{} ; at every depth slice vs reader(all) vs reader(fixed 7), explicit and detected; the debug and release binaries (default stack; file and stdin, source format given or detected) at the limit, one beyond and far beyond; MessagePack size calculator vs the harness decoder on generated, padded and truncated values; distinct non-trivial = distinct combinations", work.len(), if thorough { ", 10^6 (3*10^4 for YAML)" } else { "" });
+    let rule = format!("{} (source format, nesting shape, target) combinations: shapes arrays / maps / alternating / 2 random mixtures (+ key-position nesting for MessagePack; MessagePack documents also spelled with 16/32-bit length headers and with 16-entry collections on the deepest path; every JSON / MessagePack / YAML document also followed by a second, tiny document) x 4 targets; depths: a +-6 window around each format's limit (MessagePack 1024, JSON 128, YAML 128, TOML 80; YAML also in block style), 1000..1025, 10^4, 10^5{} ; at every depth slice vs reader(all) vs reader(fixed 7), explicit and detected; the debug and release binaries (default stack; file and stdin, source format given or detected) at the limit, one beyond and far beyond; MessagePack size calculator vs the harness decoder on generated, padded and truncated values; distinct non-trivial = distinct combinations", work.len(), if thorough { ", 10^6 (3*10^4 for YAML)" } else { "" });
     ev::finish(
         Finish { ctx, level: "exploration", rule, assumptions: vec!["YAML depths are capped (parsing is quadratic in depth)".into(), "targets that refuse the document for another reason (TOML with an array root) are left out of the limit comparison".into()], extra, exhaustive: false, min_distinct: 40, must_reach: vec![("binary_status_matches_library".into(), 100), ("binary_runs_debug".into(), 50), ("binary_runs_with_detection".into(), 50), ("size_hook_cases".into(), 1000), ("inproc_msgpack".into(), 100), ("msgpack_styled_documents".into(), 500)] },
         acc,
